@@ -71,18 +71,22 @@ def run(ctx, report):
     ifs = [n for n in walk_no_nested(tt.node) if isinstance(n, ast.If) and
            any("_get_style_name_from_tag" in src(b_) for b_ in n.body)]
     if len(ifs) != 1:
-        raise AnalysisError(f"_translate_tag: branch that creates style nodes not found ({len(ifs)} candidates)")
-    tagname = tt.params[1]
-    selected = []
-    for nm in ("i", "b", "u", "I", "br", "span", "p", "em", "strong", "font", "x"):
-        try:
-            if folder.eval_in(tt.module, ifs[0].test, {tagname: Stub("tag", {"name": nm})}):
-                selected.append(nm)
-        except AnalysisError as e:
-            raise AnalysisError(f"_translate_tag: style-branch test cannot be folded: {e}")
-    report.check(selected == ["i", "b", "u"], "R-COMPLETE-CASES", (tt, ifs[0]),
-                 "SAMI: exactly the i, b, u elements are turned into style nodes",
-                 {"test": src(ifs[0].test), "element_names_selected": selected}, "1")
+        # (dispatch spelled otherwise - a table of handlers, say: which elements become style nodes is decided by the SAMI
+        # reader fold on documents with i / b / u / font / span elements)
+        report.info("R-STRUCTURE", tt, "_translate_tag: the branch that creates style nodes is not spelled as one `if` "
+                    "(spelling not recognised)", {"clause_decided_by": "R-DOC-STYLE on the generated SAMI documents"}, None)
+    else:
+        tagname = tt.params[1]
+        selected = []
+        for nm in ("i", "b", "u", "I", "br", "span", "p", "em", "strong", "font", "x"):
+            try:
+                if folder.eval_in(tt.module, ifs[0].test, {tagname: Stub("tag", {"name": nm})}):
+                    selected.append(nm)
+            except AnalysisError as e:
+                raise AnalysisError(f"_translate_tag: style-branch test cannot be folded: {e}")
+        report.check(selected == ["i", "b", "u"], "R-COMPLETE-CASES", (tt, ifs[0]),
+                     "SAMI: exactly the i, b, u elements are turned into style nodes",
+                     {"test": src(ifs[0].test), "element_names_selected": selected}, "1")
     # DFXP
     dw = ctx.index.get_function(DFXP, "_recreate_style")
     dr = ctx.index.get_function(DFXP, "DFXPReader._convert_style")
